@@ -34,6 +34,11 @@ pub struct Disk {
     curr_path: Vec<String>
 }
 
+/// cap on the blocks in one directory, same as is used in the directory searches
+const MAX_DIRECTORY_REPS: usize = 100;
+/// cap on directory nesting, a valid path has at most 64 characters
+const MAX_DIRECTORY_DEPTH: usize = 32;
+
 /// put a u16 into an index block in the prescribed fashion
 fn pack_index_ptr(buf: &mut [u8],ptr: u16,idx: usize) {
     let bytes = u16::to_le_bytes(ptr);
@@ -914,8 +919,18 @@ impl Disk {
             true => globset::GlobBuilder::new(&pattern).literal_separator(true).build()?.compile_matcher(),
             false => globset::GlobBuilder::new(&pattern.to_uppercase()).literal_separator(true).build()?.compile_matcher()
         };
+        if self.curr_path.len() > MAX_DIRECTORY_DEPTH {
+            error!("directory nesting not plausible, aborting");
+            return Err(Box::new(Error::EndOfData));
+        }
         let mut curr = dir_block;
+        let mut reps = 0;
         while curr>0 {
+            reps += 1;
+            if reps > MAX_DIRECTORY_REPS {
+                error!("directory block count not plausible, aborting");
+                return Err(Box::new(Error::EndOfData));
+            }
             let dir = self.get_directory(curr as usize)?;
             for loc in dir.entry_locations(curr) {
                 let entry = dir.get_entry(&loc);
@@ -943,10 +958,20 @@ impl Disk {
         Ok(files)
     }
     /// Output ProDOS directory as a JSON object, calls itself recursively
-    fn tree_node(&mut self,dir_block: u16,include_meta: bool) -> Result<json::JsonValue,DYNERR> {
+    fn tree_node(&mut self,dir_block: u16,include_meta: bool,depth: usize) -> Result<json::JsonValue,DYNERR> {
+        if depth > MAX_DIRECTORY_DEPTH {
+            error!("directory nesting not plausible, aborting");
+            return Err(Box::new(Error::EndOfData));
+        }
         let mut files = json::JsonValue::new_object();
         let mut curr = dir_block;
+        let mut reps = 0;
         while curr>0 {
+            reps += 1;
+            if reps > MAX_DIRECTORY_REPS {
+                error!("directory block count not plausible, aborting");
+                return Err(Box::new(Error::EndOfData));
+            }
             let dir = self.get_directory(curr as usize)?;
             for loc in dir.entry_locations(curr) {
                 let entry = dir.get_entry(&loc);
@@ -955,7 +980,7 @@ impl Disk {
                     files[&key] = json::JsonValue::new_object();
                     if entry.storage_type()==StorageType::SubDirEntry {
                         trace!("descend into directory {}",key);
-                        files[&key]["files"] = self.tree_node(entry.get_ptr(),include_meta)?;
+                        files[&key]["files"] = self.tree_node(entry.get_ptr(),include_meta,depth+1)?;
                     }
                     if include_meta {
                         files[&key]["meta"] = entry.meta_to_json();
@@ -1003,7 +1028,13 @@ impl super::DiskFS for Disk {
             "MODIFIED".bold(),"CREATED".bold(),"ENDFILE".bold(),"SUBTYPE".bold());
         println!();
         let mut curr = b;
+        let mut reps = 0;
         while curr>0 {
+            reps += 1;
+            if reps > MAX_DIRECTORY_REPS {
+                error!("directory block count not plausible, aborting");
+                return Err(Box::new(Error::EndOfData));
+            }
             dir = self.get_directory(curr as usize)?;
             for loc in dir.entry_locations(curr) {
                 let entry = dir.get_entry(&loc);
@@ -1023,7 +1054,13 @@ impl super::DiskFS for Disk {
     fn catalog_to_vec(&mut self, path: &str) -> Result<Vec<String>,DYNERR> {
         let mut ans = Vec::new();
         let mut curr = self.find_dir_key_block(path)?;
+        let mut reps = 0;
         while curr>0 {
+            reps += 1;
+            if reps > MAX_DIRECTORY_REPS {
+                error!("directory block count not plausible, aborting");
+                return Err(Box::new(Error::EndOfData));
+            }
             let dir = self.get_directory(curr as usize)?;
             for loc in dir.entry_locations(curr) {
                 let entry = dir.get_entry(&loc);
@@ -1051,7 +1088,7 @@ impl super::DiskFS for Disk {
         let dir_block = self.find_dir_key_block("/")?;
         let mut tree = json::JsonValue::new_object();
         tree["file_system"] = json::JsonValue::String(FS_NAME.to_string());
-        tree["files"] = self.tree_node(dir_block,include_meta)?;
+        tree["files"] = self.tree_node(dir_block,include_meta,0)?;
         tree["label"] = json::JsonValue::new_object();
         tree["label"]["name"] = json::JsonValue::String(vhdr.name());
         if let Some(spaces) = indent {
